@@ -142,6 +142,10 @@ fn run_job(cases: &BTreeMap<String, Vec<Case>>, job: &Job, monitors: &[String]) 
         let r0 = execute(&case.scn, base);
         let forged = r.dgrams.iter().filter(|d| d.action == "forged").count();
         let (o0, o1) = (monitors::observation(&r0), monitors::observation(&r));
+        if std::env::var("NETMC_DUMP_OBS").is_ok() {
+            eprintln!("OBS0 {}", o0);
+            eprintln!("OBS1 {}", o1);
+        }
         if o0 != o1 {
             let pos = o0.bytes().zip(o1.bytes()).position(|(x, y)| x != y).unwrap_or(o0.len().min(o1.len()));
             let lo = pos.saturating_sub(60);
@@ -282,6 +286,13 @@ fn children(case: &Case, parent: &Job, n_dgrams: usize) -> Vec<Job> {
     let start = parent.schedule.last().map(|(i, _)| *i + 1).unwrap_or(0).max(case.first_index);
     // a blackhole-from ends the interesting part of the schedule
     if parent.schedule.iter().any(|(_, a)| matches!(a, Action::BlackholeFrom(_))) {
+        return out;
+    }
+    // forgeries are always the last deviation of a schedule: the replies some of them provoke (a
+    // Version Negotiation for a flipped version field, a stateless reset for a flipped connection id)
+    // are datagrams of their own and shift the index of everything sent after them, so a later
+    // deviation would hit different datagrams in the run with and in the baseline without the forgeries
+    if parent.schedule.iter().any(|(_, a)| matches!(a, Action::Forge(_))) {
         return out;
     }
     for i in start..(n_dgrams as u32).min(case.last_index.saturating_add(1)) {
